@@ -238,6 +238,56 @@ def estimate_between_cases(run):
                             theorem="C06_execute_or_skip")
 
 
+def details_history_cases(run, cols, reqs):
+    """a request served WITH details (ret_details=True), then another request
+    (other steps, other options, an invalid one) without: the second request
+    is executed or rejected exactly as on a fresh curve"""
+    import warnings
+    firsts = [r_ for r_ in reqs if r_[0] and len(r_[0]) >= 2][:3]
+    for A in firsts:
+        for B in reqs[::2]:
+            key = "details-history:" + common.sha([canon(A), canon(B)])[:16]
+            run.case({"A(with details)": canon(A), "B": canon(B)},
+                     kind="details-history")
+            try:
+                with warnings.catch_warnings():
+                    warnings.simplefilter("ignore")
+                    fresh = curves.make_indentation(cols)
+                    try:
+                        fresh.apply_preprocessing(copy.deepcopy(B[0]),
+                                                  copy.deepcopy(B[1]))
+                        want = "ok"
+                    except BaseException as e:
+                        want = type(e).__name__
+                    a = curves.make_indentation(cols)
+                    try:
+                        a.apply_preprocessing(copy.deepcopy(A[0]),
+                                              copy.deepcopy(A[1]),
+                                              ret_details=True)
+                    except BaseException:
+                        continue            # A itself is not valid
+                    try:
+                        a.apply_preprocessing(copy.deepcopy(B[0]),
+                                              copy.deepcopy(B[1]))
+                        got = "ok"
+                    except BaseException as e:
+                        got = type(e).__name__
+                why = None
+                if got != want:
+                    why = (f"the second request ends with {got}, on a fresh "
+                           f"curve with {want}")
+                elif got == "ok":
+                    d = diff_cols(snapshot(a), snapshot(fresh))
+                    if d:
+                        why = "columns differ from a fresh curve: " + d
+            except BaseException as e:
+                why = f"raised {type(e).__name__}: {e}"
+            if why:
+                run.failing(SITE, key, f"{canon(A)} with details, then "
+                            f"{canon(B)}: {why}", payload={"kind": "rerun"},
+                            theorem="C06_execute_or_skip")
+
+
 def segment_history_cases(run):
     """two pipelines that both discover the segments and then smooth the
     height, one with and one without a slope correction that moves the
@@ -348,6 +398,7 @@ def check(run):
     shared_object_cases(run, cols, reqs, cache)
     estimate_between_cases(run)
     segment_history_cases(run)
+    details_history_cases(run, cols, reqs)
     if run.tier != "quick":
         from nanite import IndentationGroup
         import pathlib
